@@ -95,7 +95,7 @@ COMMON_FRAME = """        final(context).question_stack@ == old(context).questio
 SPECS = {
     "Nameservers::match_count": {"props": [], "mode": "assume", "contract": "    ensures r == self.name.labels@.len(), // upstream_filter: Nameservers::match_count"},
     "resolve_combined_recursive": {
-        "props": ["C10", "C08"],
+        "props": ["C10", "C08", "C07"],
         "header_rewrites": [("R32", r"\basync fn\b", "fn")],
         "rewrites": [("R30", r"\s*\.instrument\(tracing::\w+!\((?:[^()]|\([^()]*\))*\)\)", ""), ("R32", r"\s*\.await\b", "")],
         "contract": """    requires old(context).wf(), old(context).r.upstream_dns_port == configured_port(),
@@ -105,7 +105,7 @@ SPECS = {
         question.qtype != QueryType::Wildcard && r is Ok ==>
             (rrs@.len() == 0 ==> chain_ok(resolved_rrs(r->Ok_0), question.name))
             && (forall|q0: DomainName| rrs@.len() > 0 && #[trigger] chain_k(rrs@, q0, rrs@.len() as int) && ends_at(rrs@, question.name) ==> chain_ok(resolved_rrs(r->Ok_0), q0)), // [C10:aliases_first_then_the_resolution_of_their_target]
-        r is Ok && typed_ok(rrs@, question.qtype) ==> typed_ok(resolved_rrs(r->Ok_0), question.qtype), // [C10:only_aliases_and_records_of_the_asked_type]
+        r is Ok && typed_ok(rrs@, question.qtype) ==> typed_ok(resolved_rrs(r->Ok_0), question.qtype), // [C07,C10:only_aliases_and_records_of_the_asked_type]
         r is Ok && has_any_alias(rrs@) ==> has_any_alias(resolved_rrs(r->Ok_0)),
     decreases ctx_limit(old(context)) - old(context).question_stack@.len(), 1int,""",
         "entry": L.BU + " broadcast use group_chain, lemma_chain_concat_b, lemma_merged_nil_b, lemma_nil_concat_b, axiom_rr_vec_len, group_typed, group_local_first, group_any_alias;"},
@@ -121,8 +121,8 @@ SPECS = {
         nameserver_response is Answer ==> r is Ok && r->Ok_0 is Ok && r->Ok_0->Ok_0 is NonAuthoritative
             && r->Ok_0->Ok_0->NonAuthoritative_soa_rr == nameserver_response->Answer_soa_rr
             && resolved_rrs(r->Ok_0->Ok_0) == merged(combined_rrs@, nameserver_response->Answer_rrs@), // [C07:an_authoritative_answer_is_returned_as_it_is_an_empty_one_with_its_soa]
-        question.qtype != QueryType::Wildcard && combined_rrs@.len() == 0 && r is Ok && r->Ok_0 is Ok ==> chain_ok(resolved_rrs(r->Ok_0->Ok_0), question.name), // [C10:upstream_answer_in_chain_order_from_the_question_name]
-        typed_ok(combined_rrs@, question.qtype) && r is Ok && r->Ok_0 is Ok ==> typed_ok(resolved_rrs(r->Ok_0->Ok_0), question.qtype), // [C10:only_aliases_and_records_of_the_asked_type]
+        question.qtype != QueryType::Wildcard && combined_rrs@.len() == 0 && r is Ok && r->Ok_0 is Ok ==> chain_ok(resolved_rrs(r->Ok_0->Ok_0), question.name), // [C07,C10:upstream_answer_in_chain_order_from_the_question_name]
+        typed_ok(combined_rrs@, question.qtype) && r is Ok && r->Ok_0 is Ok ==> typed_ok(resolved_rrs(r->Ok_0->Ok_0), question.qtype), // [C07,C10:only_aliases_and_records_of_the_asked_type]
         // C01: local records handed in keep their place and nothing of their name and type is merged in - unless the reply is an alias
         forall|z: Seq<ResourceRecord>| #[trigger] local_first(z, combined_rrs@) && r is Ok && r->Ok_0 is Ok ==>
             local_first(z, resolved_rrs(r->Ok_0->Ok_0)) || has_any_alias(resolved_rrs(r->Ok_0->Ok_0)), // [C01:upstream_records_never_join_local_records_of_their_name_and_type]
@@ -149,14 +149,14 @@ CANDIDATES = {
 }
 
 WRAPPER = {
-    "props": ["C08", "C10", "C01"], "depub": True,
+    "props": ["C08", "C10", "C01", "C07"], "depub": True,
     "header_rewrites": [("R32", r"\basync fn\b", "fn")],
     "rewrites": [("R32", r"\s*\.await\b", "")],
     "contract": """    requires old(context).wf(), old(context).r.upstream_dns_port == configured_port(),
     ensures
 """ + COMMON_FRAME + """
-        question.qtype != QueryType::Wildcard && r is Ok ==> chain_ok(resolved_rrs(r->Ok_0), question.name), // [C10:recursive_chain_in_order_from_the_question_name]
-        r is Ok ==> typed_ok(resolved_rrs(r->Ok_0), question.qtype), // [C10:recursive_answer_holds_only_aliases_and_records_of_the_asked_type]
+        question.qtype != QueryType::Wildcard && r is Ok ==> chain_ok(resolved_rrs(r->Ok_0), question.name), // [C07,C10:recursive_chain_in_order_from_the_question_name]
+        r is Ok ==> typed_ok(resolved_rrs(r->Ok_0), question.qtype), // [C07,C10:recursive_answer_holds_only_aliases_and_records_of_the_asked_type]
         budgeted(r) || r == Err::<ResolvedRecord, ResolutionError>(ResolutionError::Timeout), // [C08:every_resolution_runs_under_its_budget_or_reports_a_timeout]""",
 }
 
@@ -186,8 +186,8 @@ RRN = {
         // C01 (every question type): local records come first and nothing of their name and type is added - unless the answer involves an alias
         guards_pass(old(context), *question) && zr(old(context), *question) is Some && zr(old(context), *question)->Some_0.1 is Answer && zone_soa_rr(zr(old(context), *question)->Some_0.0) is None && r is Ok ==>
             local_first(zr(old(context), *question)->Some_0.1->rrs@, resolved_rrs(r->Ok_0)) || has_any_alias(resolved_rrs(r->Ok_0)), // [C01:recursive_local_records_first_and_nothing_of_their_name_and_type_added]
-        question.qtype != QueryType::Wildcard && r is Ok ==> chain_ok(resolved_rrs(r->Ok_0), question.name), // [C10:recursive_chain_in_order_from_the_question_name]
-        r is Ok ==> typed_ok(resolved_rrs(r->Ok_0), question.qtype), // [C10:recursive_answer_holds_only_aliases_and_records_of_the_asked_type]
+        question.qtype != QueryType::Wildcard && r is Ok ==> chain_ok(resolved_rrs(r->Ok_0), question.name), // [C07,C10:recursive_chain_in_order_from_the_question_name]
+        r is Ok ==> typed_ok(resolved_rrs(r->Ok_0), question.qtype), // [C07,C10:recursive_answer_holds_only_aliases_and_records_of_the_asked_type]
     decreases ctx_limit(old(context)) - old(context).question_stack@.len(), 0int,""",
     "entry": L.BU + " broadcast use group_chain, lemma_chain_concat_b, lemma_merged_nil_b, lemma_nil_concat_b, axiom_rr_vec_len, axiom_dn_vec_len, axiom_names_wf, group_local_first, lemma_alias_concat_b; let ghost mut tried__: Set<DomainName> = Set::empty();",
     "anchors": [{"after_re": r"if let Some\(ip\) =\s*resolve_hostname_to_ip\(", "at": "before", "proof": """proof {
